@@ -59,6 +59,8 @@ def run(ctx, chk, tier):
             rets = returns(outs)
             q = SCORES + BM
             inst = "%s:%s" % (short, kind)
+            from . import c10
+            c10.memo_rule(ctx, chk, outs, q, "bootstrap_metric(%s)" % inst, rule="R14.6")
             if len(rets) != 1 or rets[0].unmodelled:
                 chk.unknown("R14.1", "bootstrap_metric %s: %d return paths %s" % (inst, len(rets), rets and unmodelled_text(rets[0])))
                 continue
@@ -131,6 +133,8 @@ def run(ctx, chk, tier):
             ev.stubs.pop(UBCI, None)
         rets = returns(outs)
         q = SCORES + BC
+        from . import c10
+        c10.memo_rule(ctx, chk, outs, q, "bootstrap_ci(%s)" % short, rule="R14.6")
         if len(rets) != 1 or "ci" not in cap or "bm" not in cap:
             chk.unknown("R14.3", "bootstrap_ci (%s): %d return paths, helper calls %s" % (short, len(rets), sorted(cap)))
         else:
